@@ -7,6 +7,7 @@ import (
 	"fmt"
 	"io"
 	"math/big"
+	"strings"
 	"time"
 
 	"github.com/tjfoc/gmsm/gmtls"
@@ -28,10 +29,11 @@ var authItems = []string{
 	"S10-no-enc-key", "S11-certs-swapped", "S12-one-cert", "S13-eku-clientauth-only", "S14-keyusage-sign-cert", "S14-keyusage-enc-cert", "V1-client-callback-rejects", "S15-untrusted-ca-ships-its-root", "S15-extra-unrelated-selfsigned",
 	"C0-honest-client", "C1-no-cert", "C2-untrusted-ca", "C3-cv-other-key", "C4-cv-other-transcript", "C5-cv-omitted", "C6-selfsigned-allowed", "C7-selfsigned-cv-other-key", "C8-ifgiven-no-cert", "C9-expired", "C9-server-clock-after", "C10-eku-serverauth-only", "V2-server-callback-rejects", "C11-foreign-cert-first-own-cert-second", "C12-certificate-message-omitted",
 	"S16-dual-usage-sign-cert-enc-key-not-held", "S17-lookalike-of-trusted-root", "S18-leaves-issued-by-v1-end-entity", "C13-lookalike-of-trusted-root", "C14-leaf-issued-by-v1-end-entity", "TS7-leaf-issued-by-v1-end-entity", "TC14-leaf-issued-by-v1-end-entity",
+	"S19-wildcard-one-label(allowed)", "S19-wildcard-deeper-name", "S19-wildcard-parent-name", "TS19-wildcard-one-label(allowed)", "TS19-wildcard-deeper-name", "TS19-wildcard-parent-name",
 	"TS0-honest-server", "TS1-untrusted-root", "TS3-wrong-name", "TS10-rsa-key-not-held", "TS5-ecdhe-params-signed-by-other-key", "TS6-ecdhe-params-signature-over-other-randoms", "TS9-ecdhe-params-signature-garbage", "TS4-ecdsa-cert-for-rsa-suite",
 	"TC0-honest-client", "TC1-no-cert", "TC2-untrusted-ca", "TC3-cv-other-key", "TC4-cv-other-transcript", "TC5-cv-omitted", "TC5-cv-omitted-enc-only-cert", "TC3-cv-other-key-enc-only-cert", "TC12-certificate-message-omitted", "TC8-ifgiven-no-cert",
 	"T0-honest", "T1-wrong-name", "T2-untrusted-root", "T3-client-cert-untrusted", "T4-no-client-cert", "T5-client-cert-if-given-untrusted", "T6-ip-literal-name",
-	"M-flip-byte", "M-replace-from-session1", "M-drop", "M-duplicate", "M-swap", "M-suite-strip", "M-serverhello-suite", "M-cert-substitute", "M7-refragment(legal)", "M7-warning-alert", "clock-skew",
+	"M-flip-byte", "M-replace-from-session1", "M-drop", "M-duplicate", "M-swap", "M-suite-strip", "M-serverhello-suite", "M-cert-substitute", "M7-refragment(legal)", "M7-warning-alert", "M-extend-body", "M-shorten-body", "clock-skew",
 }
 var authReach = []string{"victim-rejected", "allowed-completed", "honest-completed", "gm-cbc", "gm-gcm", "policy-request", "policy-require-any", "policy-verify-if-given", "policy-require-and-verify", "mitm-both-failed", "mitm-one-failed", "mitm-noop-completed", "session1-harvested", "rewrite-clienthello", "rewrite-serverhello", "rewrite-certificate", "rewrite-skx", "rewrite-ckx", "rewrite-other", "views-compared", "mitm-tls-path"}
 
@@ -83,7 +85,7 @@ func drawImpostor(c *simkit.Choice, ent *simkit.Stream) impRun {
 		sc := &reftls.ServerCfg{Rand: ent, Suites: []uint16{ir.Suite}, Sign: ident("srv-sign", true), Enc: ident("srv-enc", true)}
 		ir.scfg = sc
 		items := []string{"S0-honest-server", "S1-untrusted-ca", "S2-expired", "S2-not-yet-valid", "S2-client-clock-before", "S2-client-clock-after", "S2-one-expired", "S3-wrong-name", "S3-one-wrong-name", "S3-ip-literal-server-name",
-			"S4-rsa-sign-cert", "S4-p256-sign-cert", "S4-rsa-enc-cert", "S5-skx-other-key", "S6-skx-replayed-randoms", "S7-skx-other-enc-cert", "S8-skx-omitted", "S9-skx-malformed", "S10-no-enc-key", "S11-certs-swapped", "S12-one-cert", "S13-eku-clientauth-only", "S14-keyusage-sign-cert", "S14-keyusage-enc-cert", "V1-client-callback-rejects", "S15-untrusted-ca-ships-its-root", "S15-extra-unrelated-selfsigned", "S16-dual-usage-sign-cert-enc-key-not-held", "S17-lookalike-of-trusted-root", "S18-leaves-issued-by-v1-end-entity"}
+			"S4-rsa-sign-cert", "S4-p256-sign-cert", "S4-rsa-enc-cert", "S5-skx-other-key", "S6-skx-replayed-randoms", "S7-skx-other-enc-cert", "S8-skx-omitted", "S9-skx-malformed", "S10-no-enc-key", "S11-certs-swapped", "S12-one-cert", "S13-eku-clientauth-only", "S14-keyusage-sign-cert", "S14-keyusage-enc-cert", "V1-client-callback-rejects", "S15-untrusted-ca-ships-its-root", "S15-extra-unrelated-selfsigned", "S16-dual-usage-sign-cert-enc-key-not-held", "S17-lookalike-of-trusted-root", "S18-leaves-issued-by-v1-end-entity", "S19-wildcard-one-label(allowed)", "S19-wildcard-deeper-name", "S19-wildcard-parent-name"}
 		ir.Item = items[c.Choose(len(items), simkit.LFault)]
 		switch ir.Item {
 		case "S0-honest-server":
@@ -171,6 +173,18 @@ func drawImpostor(c *simkit.Choice, ent *simkit.Stream) impRun {
 			ir.Expect = expAny
 		case "V1-client-callback-rejects":
 			ir.CallbackRejects = true // honest server; the victim's VerifyPeerCertificate says no
+		case "S19-wildcard-one-label(allowed)", "S19-wildcard-deeper-name", "S19-wildcard-parent-name":
+			// genuine wildcard certificates for *.wild.sim: good for exactly one more label
+			sc.Sign, sc.Enc = ident("srvwild-sign", true), ident("srvwild-enc", true)
+			switch ir.Item {
+			case "S19-wildcard-one-label(allowed)":
+				ir.VictimName = []string{"host.wild.sim", "HOST.Wild.Sim", "x.wild.sim"}[c.Choose(3, simkit.LFault)]
+				ir.Expect = expComplete
+			case "S19-wildcard-deeper-name":
+				ir.VictimName = []string{"login.internal.wild.sim", "a.b.c.wild.sim", "a.b.wild.sim"}[c.Choose(3, simkit.LFault)]
+			default:
+				ir.VictimName = []string{"wild.sim", "xwild.sim", "host.wild.sim.evil"}[c.Choose(3, simkit.LFault)]
+			}
 		case "S17-lookalike-of-trusted-root":
 			// self-issued certificates that copy the trusted root's subject name and
 			// subject key identifier (both public), with the impostor's own keys
@@ -285,7 +299,7 @@ func drawImpostorTLS(c *simkit.Choice, ent *simkit.Stream, ir *impRun) {
 	if !ir.VictimSrv {
 		sc := &reftls.ServerCfg{Rand: ent, Suites: []uint16{ir.Suite}, TLS12: true, Sign: rsaID("tlsrsa", true)}
 		ir.scfg = sc
-		items := []string{"TS0-honest-server", "TS1-untrusted-root", "TS3-wrong-name", "TS10-rsa-key-not-held", "TS4-ecdsa-cert-for-rsa-suite", "TS7-leaf-issued-by-v1-end-entity"}
+		items := []string{"TS0-honest-server", "TS1-untrusted-root", "TS3-wrong-name", "TS10-rsa-key-not-held", "TS4-ecdsa-cert-for-rsa-suite", "TS7-leaf-issued-by-v1-end-entity", "TS19-wildcard-one-label(allowed)", "TS19-wildcard-deeper-name", "TS19-wildcard-parent-name"}
 		if ecdhe {
 			items = []string{"TS0-honest-server", "TS1-untrusted-root", "TS3-wrong-name", "TS5-ecdhe-params-signed-by-other-key", "TS6-ecdhe-params-signature-over-other-randoms", "TS9-ecdhe-params-signature-garbage", "TS7-leaf-issued-by-v1-end-entity"}
 		}
@@ -293,6 +307,17 @@ func drawImpostorTLS(c *simkit.Choice, ent *simkit.Stream, ir *impRun) {
 		switch ir.Item {
 		case "TS0-honest-server":
 			ir.Expect = expComplete
+		case "TS19-wildcard-one-label(allowed)", "TS19-wildcard-deeper-name", "TS19-wildcard-parent-name":
+			sc.Sign = rsaID("tlswild", true)
+			switch ir.Item {
+			case "TS19-wildcard-one-label(allowed)":
+				ir.VictimName = []string{"host.wild.sim", "HOST.Wild.Sim", "x.wild.sim"}[c.Choose(3, simkit.LFault)]
+				ir.Expect = expComplete
+			case "TS19-wildcard-deeper-name":
+				ir.VictimName = []string{"login.internal.wild.sim", "a.b.c.wild.sim", "a.b.wild.sim"}[c.Choose(3, simkit.LFault)]
+			default:
+				ir.VictimName = []string{"wild.sim", "xwild.sim", "host.wild.sim.evil"}[c.Choose(3, simkit.LFault)]
+			}
 		case "TS7-leaf-issued-by-v1-end-entity":
 			sc.Sign = &reftls.Identity{Chain: [][]byte{pki.DER("forgedrsa-srv"), pki.DER("v1eersa")}, RSA: refRSA("forgedrsa-srv")}
 		case "TS1-untrusted-root":
@@ -562,7 +587,7 @@ func runAuthImpostor(c *simkit.Choice, r *simkit.Rec) {
 				return
 			}
 		}
-		if ir.Item == "S0-honest-server" || ir.Item == "C0-honest-client" || ir.Item == "TS0-honest-server" || ir.Item == "TC0-honest-client" {
+		if ir.Item == "S0-honest-server" || ir.Item == "C0-honest-client" || ir.Item == "TS0-honest-server" || ir.Item == "TC0-honest-client" || strings.HasSuffix(ir.Item, "(allowed)") {
 			r.Reach(idx(authReach, "honest-completed"))
 		} else {
 			r.Reach(idx(authReach, "allowed-completed"))
@@ -691,6 +716,27 @@ func (h *hsRelay) rewrite(raw []byte, held *[]byte) [][]byte {
 			}
 		}
 		return [][]byte{raw}
+	case "M-extend-body":
+		// bytes appended to the body, handshake length adjusted: a well-framed, longer message
+		n := 1 + rw.Val%8
+		m := append([]byte(nil), raw...)
+		for i := 0; i < n; i++ {
+			m = append(m, byte(rw.Off>>uint(i%16)))
+		}
+		ln := len(m) - 4
+		m[1], m[2], m[3] = byte(ln>>16), byte(ln>>8), byte(ln)
+		h.changed = true
+		return [][]byte{m}
+	case "M-shorten-body":
+		if len(body) == 0 {
+			return [][]byte{raw}
+		}
+		n := 1 + rw.Val%len(body)
+		m := append([]byte(nil), raw[:len(raw)-n]...)
+		ln := len(m) - 4
+		m[1], m[2], m[3] = byte(ln>>16), byte(ln>>8), byte(ln)
+		h.changed = true
+		return [][]byte{m}
 	case "M-drop":
 		h.changed = true
 		return nil
@@ -771,8 +817,8 @@ func runAuthMITM(c *simkit.Choice, r *simkit.Rec) {
 	if tlsMode {
 		suiteList = [][]uint16{{0xc02f, 0x009c}, {0x009c, 0xc02f}, {0x002f, 0x009c}, {0xc02f}}[c.Choose(4, simkit.LScen)]
 	}
-	kinds := []string{"M-flip-byte", "M-replace-from-session1", "M-drop", "M-duplicate", "M-swap", "M-suite-strip", "M-serverhello-suite", "M-cert-substitute", "M7-refragment(legal)", "M7-warning-alert"}
-	rw := &mitmRewrite{Kind: kinds[c.Weighted([]int{5, 4, 2, 2, 2, 2, 2, 3, 2, 1}, simkit.LFault)]}
+	kinds := []string{"M-flip-byte", "M-replace-from-session1", "M-drop", "M-duplicate", "M-swap", "M-suite-strip", "M-serverhello-suite", "M-cert-substitute", "M7-refragment(legal)", "M7-warning-alert", "M-extend-body", "M-shorten-body"}
+	rw := &mitmRewrite{Kind: kinds[c.Weighted([]int{5, 4, 2, 2, 2, 2, 2, 3, 2, 1, 4, 2}, simkit.LFault)]}
 	rw.Dir = c.Choose(2, simkit.LFault)
 	maxIdx := 1 // c2s before CCS: CH, [Cert], CKX, [CV]
 	if rw.Dir == 0 {
